@@ -3,6 +3,7 @@ package main
 import (
 	"fmt"
 	"go/token"
+	"go/types"
 	"strings"
 
 	"golang.org/x/tools/go/ssa"
@@ -270,12 +271,7 @@ func runC18(r *Report) {
 				if !isB || bo.Op != token.GEQ || !ft.Pol {
 					continue
 				}
-				lo, ro := originSummary(bo.X), originSummary(bo.Y)
-				if lc, isCall := stripValue(bo.X).(*ssa.Call); isCall {
-					if bi, isB := lc.Call.Value.(*ssa.Builtin); isB && bi.Name() == "len" {
-						lo = originSummary(lc.Call.Args[0])
-					}
-				}
+				lo, ro := countOrigin(bo.X, 2), originSummary(bo.Y)
 				if strings.Contains(ro, "BruteForceConfig."+wantField) && strings.Contains(lo, "FailureRecord."+wantCount) {
 					// only this threshold: no extra conjunct from the other counter
 					ok = true
@@ -305,7 +301,7 @@ func runC18(r *Report) {
 			if !ok || t != "FailureRecord" || (fld != "TotalCount" && fld != "Failures") {
 				return
 			}
-			r.Ob("R-C18-5", in.Pos(), ls.Held(in, "mu") == "W", "failure counters are read/updated under the failures lock", "RecordFailure", "counts-under-lock:"+fld)
+			r.Ob("R-C18-5", in.Pos(), r.held(ls, in, "internal/security", "BruteForceProtector", "mu") == "W", "failure counters are read/updated under the failures lock", "RecordFailure", "counts-under-lock:"+fld)
 		})
 	}
 	checkZeroExpiryGuard(r, "R-C18-3", secPkg, "BanRecord", "ExpiresAt")
@@ -491,39 +487,44 @@ func runC18(r *Report) {
 	}
 
 	// ---- R-C18-6 token bucket of a key is created once ---------------------------------------
-	if al := r.need("R-C18-6", secPkg, "RateLimiter.allow"); al != nil {
+	{
 		n := 0
-		Instrs(al, func(in ssa.Instruction) {
-			mu, ok := in.(*ssa.MapUpdate)
-			if !ok || originSummary(mu.Map) != "param:buckets" {
-				return
-			}
-			n++
-			var k ssa.Instruction
-			Instrs(al, func(l ssa.Instruction) {
-				if lc, ok := l.(*ssa.Call); ok {
-					if id, op, ok := lockOp(lc); ok && op == "Lock" && id == "mu" && Before(l, in) && (k == nil || Before(k, l)) {
-						k = l
-					}
+		for _, f := range r.P.FuncsIn(secPkg) {
+			ls := lockSetsOf(f)
+			Instrs(f, func(in ssa.Instruction) {
+				mu, ok := in.(*ssa.MapUpdate)
+				if !ok {
+					return
 				}
-			})
-			ok2 := false
-			if k != nil {
+				mt, isMap := mu.Map.Type().Underlying().(*types.Map)
+				if !isMap || !strings.HasSuffix(mt.Elem().String(), "security.TokenBucket") {
+					return
+				}
+				n++
+				wHeld := func(x ssa.Instruction) bool {
+					for _, m := range ls.HeldAll(x) {
+						if m == "W" {
+							return true
+						}
+					}
+					return false
+				}
+				ok2 := false
 				for _, ft := range Facts(in.Block()) {
 					ex, isEx := ft.Cond.(*ssa.Extract)
 					if !isEx || ex.Index != 1 || ft.Pol {
 						continue
 					}
 					lk, isLk := ex.Tuple.(*ssa.Lookup)
-					if isLk && originSummary(lk.X) == "param:buckets" && Before(k, lk) {
+					if isLk && originSummary(lk.X) == originSummary(mu.Map) && wHeld(lk) && wHeld(in) && unlockBetween(lk, in) == nil {
 						ok2 = true
 					}
 				}
-			}
-			r.Ob("R-C18-6", in.Pos(), ok2, "a token bucket is installed only if a lookup made after taking the write lock found none (otherwise concurrent first requests of one address each get a private full bucket and the burst limit is exceeded)", "RateLimiter.allow", "bucket-created-once")
-		})
-		if n != 1 {
-			r.Fail("R-C18-6", al.Pos(), fmt.Sprintf("expected one bucket installation in allow, found %d", n), "RateLimiter.allow", "anchor")
+				r.Ob("R-C18-6", in.Pos(), ok2, "a token bucket is installed only if a lookup made in the same write-locked section found none (otherwise concurrent first requests of one address each get a private full bucket and the burst limit is exceeded)", r.P.FuncName(f), "bucket-created-once")
+			})
+		}
+		if n < 1 {
+			r.Fail("R-C18-6", 0, "no installation of a token bucket into a bucket map found (1 confirmed by hand, in RateLimiter.allow)", secPkg, "bucket-created-once:anchor")
 		}
 	}
 
@@ -637,4 +638,38 @@ func isMinFunc(g *ssa.Function) bool {
 		}
 	}
 	return true
+}
+
+// countOrigin: where a counter value comes from, looking through len() and through the results of
+// same-module helpers (a helper that returns `len(rec.Failures), rec.TotalCount` is transparent).
+func countOrigin(v ssa.Value, depth int) string {
+	sv := stripValue(v)
+	if c, ok := sv.(*ssa.Call); ok {
+		if bi, isB := c.Call.Value.(*ssa.Builtin); isB && bi.Name() == "len" {
+			return countOrigin(c.Call.Args[0], depth)
+		}
+	}
+	var call *ssa.Call
+	idx := 0
+	switch x := sv.(type) {
+	case *ssa.Call:
+		call = x
+	case *ssa.Extract:
+		call, _ = x.Tuple.(*ssa.Call)
+		idx = x.Index
+	}
+	if call != nil && depth > 0 {
+		if h := call.Common().StaticCallee(); h != nil && len(h.Blocks) > 0 && h.Pkg != nil && strings.HasPrefix(h.Pkg.Pkg.Path(), Module) {
+			var outs []string
+			for _, ret := range Returns(h) {
+				if idx < len(ret.Results) {
+					outs = append(outs, countOrigin(RetVal(ret, idx), depth-1))
+				}
+			}
+			if len(outs) > 0 {
+				return strings.Join(outs, "|")
+			}
+		}
+	}
+	return originSummary(v)
 }
